@@ -440,8 +440,33 @@ pub fn run_unit(prop: &str, tier: Tier, seed: u64, want_sample: bool) -> UnitRes
             absorb_any(&mut res, crate::anycase::AnyCase::Drcp(c), want_sample);
         }
         "C14" => {
-            let c = crate::dimacs_stream::DimacsCase::generate(prop, &mut rng);
-            absorb_any(&mut res, crate::anycase::AnyCase::Dimacs(c), want_sample);
+            // the parser under every chunking (cheap) and, in a slice, the binary end to end:
+            // verdict, model line, DRAT proof
+            if rng.chance(0.03) {
+                let c = crate::cli::CliCase::generate_cnf(prop, &mut rng, false);
+                absorb_any(&mut res, crate::anycase::AnyCase::Cli(c), want_sample);
+            } else {
+                let c = crate::dimacs_stream::DimacsCase::generate(prop, &mut rng);
+                absorb_any(&mut res, crate::anycase::AnyCase::Dimacs(c), want_sample);
+            }
+        }
+        "C15" => {
+            let c = crate::cli::CliCase::generate_wcnf(prop, &mut rng, false);
+            absorb_any(&mut res, crate::anycase::AnyCase::Cli(c), want_sample);
+        }
+        "C13" => {
+            let c = crate::cli::CliCase::generate_fzn(prop, &mut rng, false);
+            absorb_any(&mut res, crate::anycase::AnyCase::Cli(c), want_sample);
+        }
+        "C20" if rng.chance(0.12) => {
+            // TwinRun on the binary: same file, flags and seed twice under perturbed ambient
+            // conditions; stdout (minus wall-clock statistics) and proof files must be identical
+            let c = match rng.below(3) {
+                0 => crate::cli::CliCase::generate_cnf(prop, &mut rng, true),
+                1 => crate::cli::CliCase::generate_wcnf(prop, &mut rng, true),
+                _ => crate::cli::CliCase::generate_fzn(prop, &mut rng, true),
+            };
+            absorb_any(&mut res, crate::anycase::AnyCase::Cli(c), want_sample);
         }
         _ => {
             let cases = gen_unit(prop, tier, &mut rng);
